@@ -40,7 +40,11 @@ class Run:
 
     def __init__(self, pid, tier, seed):
         self.pid, self.tier, self.seed = pid, tier, seed
-        self.dir = os.path.join(WORK, "%s-%s" % (pid, tier))
+        # VERIF_REPO / VERIF_WORKTAG / VERIF_EVIDENCE_DIR: development only (mutation calibration against a scratch copy of the
+        # repository without touching /repo or the committed evidence); the registered commands never set them
+        self.repo = os.environ.get("VERIF_REPO", "/repo")
+        tag = os.environ.get("VERIF_WORKTAG", "")
+        self.dir = os.path.join(WORK, "%s-%s%s" % (pid, tier, ("-" + tag) if tag else ""))
         shutil.rmtree(self.dir, ignore_errors=True)
         os.makedirs(self.dir, exist_ok=True)
         self.vh = None
@@ -57,9 +61,16 @@ class Run:
     def build_harness(self, race=False):
         out = os.path.join(self.dir, "vh-race" if race else "vh")
         # the harness module replaces the library with /repo: this compiles the current working tree
-        shutil.copy("/repo/go.sum", os.path.join(ROOT, "harness", "go.sum"))
+        src = os.path.join(ROOT, "harness")
+        if self.repo != "/repo":
+            src = os.path.join(self.dir, "harness-src")
+            shutil.rmtree(src, ignore_errors=True)
+            shutil.copytree(os.path.join(ROOT, "harness"), src)
+            gm = open(os.path.join(src, "go.mod")).read().replace("=> /repo", "=> " + self.repo)
+            open(os.path.join(src, "go.mod"), "w").write(gm)
+        shutil.copy(os.path.join(self.repo, "go.sum"), os.path.join(src, "go.sum"))
         cmd = ["go", "build"] + (["-race"] if race else []) + ["-o", out, "./cmd/vh"]
-        rc, o = sh(cmd, cwd=os.path.join(ROOT, "harness"), env=GOENV, timeout=600)
+        rc, o = sh(cmd, cwd=src, env=GOENV, timeout=600)
         if rc != 0:
             raise Infra("harness does not build against /repo: " + o[-2000:])
         if not race:
@@ -152,8 +163,9 @@ class Run:
             if k.get("property") == self.pid and k.get("predicate") in (pred, "*") and all(str(desc.get(f)) == str(v) for f, v in k.get("match", {}).items()):
                 self.known_hits.append((k, desc))
                 return
-        os.makedirs(os.path.join(REPLAYS, self.pid), exist_ok=True)
-        path = os.path.join(REPLAYS, self.pid, "%s-seed%d-%d.json" % (self.tier, self.seed, len(self.violations) + 1))
+        rdir = os.path.join(REPLAYS + ("-" + os.environ["VERIF_WORKTAG"] if os.environ.get("VERIF_WORKTAG") else ""), self.pid)
+        os.makedirs(rdir, exist_ok=True)
+        path = os.path.join(rdir, "%s-seed%d-%d.json" % (self.tier, self.seed, len(self.violations) + 1))
         replay_obj = dict(replay_obj, property=self.pid, predicate=pred, description=desc)
         with open(path, "w") as f:
             json.dump(replay_obj, f, indent=1)
@@ -182,7 +194,8 @@ class Run:
         return 0
 
     def write_evidence(self, wall, infra=None):
-        os.makedirs(os.path.join(ROOT, "evidence"), exist_ok=True)
+        evdir = os.environ.get("VERIF_EVIDENCE_DIR", os.path.join(ROOT, "evidence"))
+        os.makedirs(evdir, exist_ok=True)
         cov = dict(self.cov)
         if not cov["samples"]:
             cov["samples"] = ["(no sample recorded: run ended early)"]
@@ -197,7 +210,7 @@ class Run:
         cov["known_findings_hit"] = len(self.known_hits)
         ev = {"property_id": self.pid, "tier": self.tier, "seed": self.seed, "level": self.level, "coverage": cov,
               "assumptions": ASSUMPTIONS + self.extra_assumptions, "wall_s": round(wall, 2), "violations": len(self.violations)}
-        with open(os.path.join(ROOT, "evidence", self.pid + ".json"), "w") as f:
+        with open(os.path.join(evdir, self.pid + ".json"), "w") as f:
             json.dump(ev, f, indent=1)
 
 
